@@ -31,6 +31,12 @@ pub fn ast_bundle(text: &str, path: &str) -> String {
     match ast::Document::parse(text, path) {
         Ok(doc) => {
             let _ = writeln!(s, "AST OK\n{doc}\n--no-indent--\n{}", doc.serialize().no_indent());
+            let _ = writeln!(
+                s,
+                "--tab-indent--\n{}\n--level-2--\n{}",
+                doc.serialize().indent_prefix("\t"),
+                doc.serialize().indent_prefix("--").initial_indent_level(2)
+            );
         }
         Err(e) => {
             let _ = writeln!(
